@@ -100,10 +100,21 @@ func (c *c17Case) Oracle() (bool, string) {
 		}
 		return true, ""
 	}
+	cur := c.Opts
 	for i, s := range c.Steps {
+		if s.Op == "reopen" && s.Opts != nil {
+			cur = *s.Opts
+		}
+		walFails := cur.DirectIOWAL && !cur.AsyncWAL // every WAL append is refused: a write may fail, and then has no effect
 		switch s.Op {
 		case "put", "putb":
 			mustReject := len(s.key()) == 0 || len(s.val()) == 0
+			if walFails && !mustReject {
+				if s.Err == "" {
+					ref[string(s.key())] = s.val()
+				}
+				continue
+			}
 			if mustReject && s.Err == "" {
 				return false, fmt.Sprintf("step %d: %s with an empty or nil key/value (key %q nil=%v, value %q nil=%v) was accepted", i, s.Op, s.K, s.KNil, s.V, s.VNil)
 			}
@@ -137,6 +148,11 @@ func (c *c17Case) Oracle() (bool, string) {
 func (c *c17Case) Sx() string {
 	if c.Fatal != "" || c.Opts.MemstoreBytes < 1<<20 {
 		return "" // self-rotating sessions are not programs of Db/Logical.v: the reference map judges them
+	}
+	for _, st := range c.Steps {
+		if st.Opts != nil && st.Opts.DirectIOWAL {
+			return "" // sessions with a failing WAL: the reference map judges them
+		}
 	}
 	return sxDbProgram(c.Opts, c.Steps, c.Sweeps, false)
 }
@@ -213,6 +229,43 @@ func genC17(r *rand.Rand, tier string) []Case {
 		}
 		cases = append(cases, c)
 	}
+	// a phase in which every WAL append is refused (direct I/O with the synchronous WAL): writes fail, and a failed
+	// write - Put or Delete, either flavour - must leave no trace, neither now nor after restarts
+	nf := 4
+	if tier == "thorough" {
+		nf = 60
+	}
+	for i := 0; i < nf; i++ {
+		keys := [][]byte{[]byte("a"), []byte("b"), []byte("c")}
+		good := dbOpts{MemstoreBytes: 1 << 30, Threshold: 10, MaxSize: 5 << 30, RatioPct: 20, WBuf: 4096, RBuf: 4096}
+		bad := good
+		bad.DirectIOWAL = true
+		c := &c17Case{Keys: keys, Opts: good}
+		c.Steps = append(c.Steps, dbStep{Op: "put", K: keys[0], V: []byte("a1")}, dbStep{Op: "putb", K: keys[1], V: []byte("b1")})
+		if i%2 == 0 {
+			c.Steps = append(c.Steps, dbStep{Op: "rotate"})
+		}
+		c.Steps = append(c.Steps, dbStep{Op: "reopen", Opts: &bad})
+		for j := 0; j < 3+r.Intn(6); j++ {
+			k := keys[r.Intn(3)]
+			switch r.Intn(4) {
+			case 0:
+				c.Steps = append(c.Steps, dbStep{Op: "del", K: k})
+			case 1:
+				c.Steps = append(c.Steps, dbStep{Op: "delb", K: k})
+			case 2:
+				c.Steps = append(c.Steps, dbStep{Op: "put", K: k, V: []byte(fmt.Sprintf("x%d", j))})
+			default:
+				c.Steps = append(c.Steps, dbStep{Op: "putb", K: k, V: []byte(fmt.Sprintf("y%d", j))})
+			}
+			c.Steps = append(c.Steps, dbStep{Op: "get", K: k})
+		}
+		if i%3 == 0 {
+			c.Steps = append(c.Steps, dbStep{Op: "rotate"})
+		}
+		c.Steps = append(c.Steps, dbStep{Op: "reopen", Opts: &good}, dbStep{Op: "get", K: keys[0]}, dbStep{Op: "get", K: keys[1]})
+		cases = append(cases, c)
+	}
 	// a small memstore and one key overwritten again and again: the log grows far beyond the memstore limit while the
 	// memstore stays below it; then other keys, a clean restart, and every key must read as before it
 	nh := 4
@@ -221,9 +274,12 @@ func genC17(r *rand.Rand, tier string) []Case {
 	}
 	for i := 0; i < nh; i++ {
 		keys := [][]byte{[]byte("hot"), []byte("b"), []byte("c")}
-		c := &c17Case{Keys: keys, Opts: dbOpts{MemstoreBytes: uint64(150 + r.Intn(300)), Threshold: 10, MaxSize: 5 << 30, RatioPct: 20, WBuf: 4096, RBuf: 4096, AsyncWAL: i%2 == 0}}
+		c := &c17Case{Keys: keys, Opts: dbOpts{MemstoreBytes: []uint64{1, 8, uint64(150 + r.Intn(300))}[i%3], Threshold: 10, MaxSize: 5 << 30, RatioPct: 20, WBuf: 4096, RBuf: 4096, AsyncWAL: i%2 == 0}}
 		for j := 0; j < 40+r.Intn(150); j++ {
 			c.Steps = append(c.Steps, dbStep{Op: []string{"put", "putb"}[j%2], K: keys[0], V: []byte(fmt.Sprintf("gen-%04d", j))})
+		}
+		for j := 0; j < 40+r.Intn(60); j++ {
+			c.Steps = append(c.Steps, dbStep{Op: []string{"del", "delb"}[j%2], K: keys[j%3]})
 		}
 		c.Steps = append(c.Steps, dbStep{Op: "put", K: keys[1], V: []byte("other")}, dbStep{Op: "put", K: keys[0], V: []byte("final-value")}, dbStep{Op: "del", K: keys[1]})
 		o := c.Opts
